@@ -118,12 +118,14 @@ func dataFile() string {
 // ---------------------------------------------------------------- configuration
 
 type srvConf struct {
-	Whoami    string         `json:"whoami"`     // "" = handler not installed
-	RefuseAny bool           `json:"refuse_any"` // anyHandler installed
-	AcceptAll bool           `json:"accept_all"` // dns.DefaultMsgAcceptFunc replaced by accept-everything (lets the serveMux guard be reached)
-	Driver    string         `json:"driver"`     // cdb | v1 | v2
-	Compress  bool           `json:"compress"`   // HandlerConfig.AlwaysCompress
-	IPs       map[string]int `json:"ips"`        // listener address -> max answer
+	Whoami    string         `json:"whoami"`                // "" = handler not installed
+	RefuseAny bool           `json:"refuse_any"`            // anyHandler installed
+	AcceptAll bool           `json:"accept_all"`            // dns.DefaultMsgAcceptFunc replaced by accept-everything (lets the serveMux guard be reached)
+	Driver    string         `json:"driver"`                // cdb | v1 | v2
+	Compress  bool           `json:"compress"`              // HandlerConfig.AlwaysCompress
+	IPs       map[string]int `json:"ips"`                   // listener address -> max answer
+	Cache     bool           `json:"cache,omitempty"`       // CacheConfig.Enabled (opt-in configurations only)
+	WRS       int64          `json:"wrs_timeout,omitempty"` // CacheConfig.WRSTimeout
 }
 
 func (c srvConf) key() string {
@@ -154,6 +156,13 @@ func allConfs() []srvConf {
 	// the whoami domain as an operator would type it (no trailing dot, mixed case)
 	res = append(res, srvConf{Whoami: "WhoAmI.c20.TEST", RefuseAny: true, AcceptAll: false, Driver: "v2", Compress: true, IPs: listenerIPs})
 	res = append(res, srvConf{Whoami: "WhoAmI.c20.TEST", RefuseAny: false, AcceptAll: true, Driver: "cdb", Compress: false, IPs: listenerIPs})
+	// Opt-in (environment C20_CACHE_CONFIGS=1): the response cache, which is off by
+	// default and outside the property's quantifier.  With a WRS timeout the cache
+	// key has no max answer in it, so listeners with different settings share entries.
+	if os.Getenv("C20_CACHE_CONFIGS") != "" {
+		res = append(res, srvConf{Whoami: "", RefuseAny: false, AcceptAll: false, Driver: "cdb", IPs: listenerIPs, Cache: true, WRS: 0})
+		res = append(res, srvConf{Whoami: "", RefuseAny: true, AcceptAll: false, Driver: "cdb", IPs: listenerIPs, Cache: true, WRS: 60})
+	}
 	return res
 }
 
@@ -230,6 +239,9 @@ func serveChild(arg string) error {
 	conf.DBConfig.Driver = driverName(cc.Conf.Driver)
 	conf.DBConfig.Path = cc.Path
 	conf.DBConfig.ReloadInterval = 0
+	conf.CacheConfig.Enabled = cc.Conf.Cache
+	conf.CacheConfig.LRUSize = 4096
+	conf.CacheConfig.WRSTimeout = cc.Conf.WRS
 	srv := fbserver.NewServer(conf, &dnsserver.DummyLogger{}, &stats.DummyStats{}, metricsStub{})
 	up := make(chan struct{}, 64)
 	srv.NotifyStartedFunc = func() { up <- struct{}{} }
@@ -601,7 +613,7 @@ type exch struct {
 
 func exchange(proto, ip string, port int, wire []byte, timeout time.Duration) exch {
 	addr := net.JoinHostPort(ip, fmt.Sprint(port))
-	c, err := net.DialTimeout(proto, addr, time.Second)
+	c, err := net.DialTimeout(proto, addr, 3*time.Second)
 	if err != nil {
 		return exch{reply: noMsg("dial: " + err.Error()), remote: addr}
 	}
@@ -629,8 +641,8 @@ func probeAlive(ip string, port int) bool {
 	w, _ := m.Pack()
 	for _, proto := range []string{"udp", "tcp"} {
 		ok := false
-		for try := 0; try < 2 && !ok; try++ {
-			e := exchange(proto, ip, port, w, 700*time.Millisecond)
+		for try := 0; try < 3 && !ok; try++ {
+			e := exchange(proto, ip, port, w, 1500*time.Millisecond)
 			ok = e.reply.Got && e.reply.Rcode == 0 && len(e.reply.An) == 1
 		}
 		if !ok {
@@ -910,7 +922,7 @@ func (ru *runner) runGroup(conf srvConf, plans []plan, rng *hlib.Rng) ([]c20case
 			}
 		}
 		c.Multi = multiAddr(reqMsg, maxAns)
-		timeout := 1500 * time.Millisecond
+		timeout := 2500 * time.Millisecond
 		if len(p.wire) >= 3 && p.wire[2]&0x80 != 0 {
 			timeout = 250 * time.Millisecond // a response is never answered
 		}
@@ -1043,6 +1055,24 @@ func run(a *hlib.Args, e *hlib.Emitter) error {
 			} else {
 				proto := []string{"udp", "tcp"}[r.Intn(2)]
 				addPlan(ru.confs[ci], plan{class: class, ip: ip, proto: proto, wire: w})
+			}
+		}
+	}
+	if a.Replay == "" {
+		// cache configurations (opt-in): the same address query on the max-answer-1
+		// listener first and on the max-answer-4 listener afterwards
+		for _, conf := range ru.confs {
+			if !conf.Cache {
+				continue
+			}
+			for _, name := range []string{"four.c20.test.", "Four.C20.Test."} {
+				for _, ip := range []string{"127.0.0.1", "127.0.0.4", "127.0.0.3"} {
+					m := new(dns.Msg)
+					m.SetQuestion(name, dns.TypeA)
+					m.Id = 4242
+					w, _ := m.Pack()
+					addPlan(conf, plan{class: "cache-seq", ip: ip, proto: "udp", wire: w})
+				}
 			}
 		}
 	}
